@@ -3,7 +3,7 @@
 cd /verif
 : > seeded/RESULTS.txt
 run() { ./seedrun.sh "$1" "$2" 2>&1 | grep -v WARNING >> seeded/RESULTS.txt; }
-for d in seeded/C*-m* seeded/C*-w2m* seeded/C*-w3m* seeded/C*-w4m* seeded/C*-w5m* seeded/C*-w6m*; do
+for d in seeded/C*-m* seeded/C*-w2m* seeded/C*-w3m* seeded/C*-w4m* seeded/C*-w5m* seeded/C*-w6m* seeded/C*-w7m*; do
   id=$(basename $d); prop=${id%%-*}
   run $id $prop
 done
@@ -37,3 +37,7 @@ run C12-w5m1 C05
 run C10-w6m3 C12
 run C06-w6m1 C17
 run C03-w6m1 C18
+run C16-w7m1 C17
+run C16-w7m3 C17
+run C12-w7m3 C10
+run C12-w7m2 C02
